@@ -145,8 +145,23 @@ def fast_black(on):
     _FAST["on"] = on
 
 
-def run_cli(argv, cwd, allow):
+def run_cli_process(argv, cwd):
+    """The CLI as users run it: a fresh `python -m xstate_statemachine.cli` in `cwd` (tools the CLI
+    calls - isort, black - see that working directory and whatever is on disk in it)."""
+    import subprocess
+    env = dict(os.environ, PYTHONPATH=observe.REPO_SRC, PYTHONDONTWRITEBYTECODE="1")
+    try:
+        r = subprocess.run([sys.executable, "-m", "xstate_statemachine.cli"] + argv, cwd=cwd, env=env,
+                           capture_output=True, text=True, timeout=300)
+    except subprocess.TimeoutExpired:
+        return "crash:Timeout", "", []
+    return r.returncode, (r.stdout + r.stderr)[-2000:], []
+
+
+def run_cli(argv, cwd, allow, process=False):
     """-> (exit code or 'crash:<Exc>', output text, audit events)"""
+    if process:
+        return run_cli_process(argv, cwd)
     from xstate_statemachine.cli.__main__ import main
     old_argv, old_cwd = sys.argv, os.getcwd()
     buf = io.StringIO()
@@ -570,12 +585,18 @@ def judge(res, cfg, template, am, fc, family, case_ref, real_black=False):
         with open(os.path.join(tmp, "m.json"), "w", encoding="utf-8") as f:
             json.dump(cfg, f)
         fast_black(not real_black)
-        argv = ["generate-template", "m.json", "-t", template, "-o", "out", "-fc", str(fc), "-am", am, "-f",
-                "--sleep", "no"]
-        code, text, ev = run_cli(argv, tmp, tmp)
+        # every fourth run writes next to the JSON (the CLI's default): the output directory is then
+        # the working directory, where tools that look at the disk see the freshly written modules
+        in_cwd = res.evaluations % 4 == 3 and (
+            FULL_PROCESS_RUNS or res.counters.get("cli.runs.output-in-working-directory", 0) < 2)
+        argv = ["generate-template", "m.json", "-t", template] + ([] if in_cwd else ["-o", "out"]) + [
+            "-fc", str(fc), "-am", am, "-f", "--sleep", "no"]
+        code, text, ev = run_cli(argv, tmp, tmp, process=in_cwd)
         res.evaluations += 1
         res.count("cli.runs." + template)
-        out = os.path.join(tmp, "out")
+        if in_cwd:
+            res.count("cli.runs.output-in-working-directory")
+        out = tmp if in_cwd else os.path.join(tmp, "out")
         files = sorted(f for f in (os.listdir(out) if os.path.isdir(out) else []) if f.endswith(".py"))
         if ev:
             res.violation("C17:cli-side-effect/%s" % ev[0][0], "the CLI run itself did: %s" % ev[:2], witness,
@@ -661,9 +682,9 @@ def judge(res, cfg, template, am, fc, family, case_ref, real_black=False):
                               dict(witness, events=seq), case=case_ref)
                 return
         # regeneration is byte-identical, --check sees no drift (every third written output)
-        if not (real_black or res.counters.get("compared.fingerprints", 0) % 3 == 1):
+        if not (real_black or in_cwd or res.counters.get("compared.fingerprints", 0) % 3 == 1):
             return
-        code2, text2, _ = run_cli(argv, tmp, tmp)
+        code2, text2, _ = run_cli(argv, tmp, tmp, process=in_cwd)
         again = {}
         for f in files:
             p = os.path.join(out, f)
@@ -676,7 +697,7 @@ def judge(res, cfg, template, am, fc, family, case_ref, real_black=False):
                           "second run: exit %s, files differing: %s" % (
                               code2, [f for f in files if again.get(f) != srcs[f]]), witness, case=case_ref)
             return
-        code3, text3, _ = run_cli(argv + ["--check"], tmp, tmp)
+        code3, text3, _ = run_cli(argv + ["--check"], tmp, tmp, process=in_cwd)
         res.count("check-mode-runs")
         if code3 != 0:
             res.violation("C17:check-reports-drift-on-fresh-output/%s" % key_t, text3[-200:], witness, case=case_ref)
@@ -698,7 +719,12 @@ def judge(res, cfg, template, am, fc, family, case_ref, real_black=False):
         shutil.rmtree(tmp, ignore_errors=True)
 
 
+FULL_PROCESS_RUNS = False
+
+
 def run_chunk(spec):
+    global FULL_PROCESS_RUNS
+    FULL_PROCESS_RUNS = spec["tier"] == "thorough"
     observe.quiet_logs()
     install_hook()
     _init_builtins()
@@ -760,7 +786,7 @@ def run_chunk(spec):
 def quota(counters, tier):
     out = []
     need = ["compared.fingerprints", "compared.traces", "regenerated", "check-mode-runs", "cli.refused",
-            "stately.exports", "formatter-stand-in-checked"]
+            "stately.exports", "formatter-stand-in-checked", "cli.runs.output-in-working-directory"]
     need += ["cli.wrote." + t for t in TEMPLATES]
     need += ["loaded." + t for t in TEMPLATES]
     for k in need:
